@@ -182,6 +182,7 @@ def run_case(ctx, case) -> None:
     program = [(bytes(p), int(c)) for p, c in case['program']]
     ncallers = max(1, int(case['callers']))
     loop = vloop.new_loop()
+    loop.max_iterations = 300_000
     state: dict = {}
 
     def fail(sig, what):
@@ -195,6 +196,10 @@ def run_case(ctx, case) -> None:
             ctrl.le_features = hci.LeFeatureMask(int(ctrl.le_features) & ~int(hci.LeFeatureMask.LE_EXTENDED_ADVERTISING))
         else:
             ctrl.le_features = hci.LeFeatureMask(int(ctrl.le_features) | int(hci.LeFeatureMask.LE_EXTENDED_ADVERTISING))
+        # Core-spec default advertising interval (the class default of 0 makes the virtual
+        # advertiser re-arm a zero-delay timer forever once enabled; not C03's subject)
+        ctrl.le_legacy_advertiser.advertising_interval_min = 0x0800
+        ctrl.le_legacy_advertiser.advertising_interval_max = 0x0800
         tap = world.Tap('T0', None)
         host = Host()
         host.set_packet_sink(tap.to_controller)
@@ -219,6 +224,14 @@ def run_case(ctx, case) -> None:
             peer = world.RawPeer(link, 1)
             await peer.start()
             await peer.host.send_sync_command(hci.HCI_Write_Scan_Enable_Command(scan_enable=3))
+
+            # a present peer's host answers classic connection requests (accepts them)
+            def on_connection_request(bd_addr, _cod, _link_type, peer=peer):
+                loop.create_task(
+                    peer.host.send_command(hci.HCI_Accept_Connection_Request_Command(bd_addr=bd_addr, role=1))
+                )
+
+            peer.host.on('connection_request', on_connection_request)
             await peer.host.send_sync_command(
                 hci.HCI_LE_Set_Advertising_Parameters_Command(
                     advertising_interval_min=0x4000, advertising_interval_max=0x4000, advertising_type=0,
@@ -307,13 +320,20 @@ def run_case(ctx, case) -> None:
 def pending_procedures(log):
     """Procedures accepted as pending (Command Status 0) and not yet concluded, from the history."""
     pending = []
+    last_cis_count = 0
     for _t, d, pkt in log:
+        if d == world.H2C and pkt[0] == 0x01 and int.from_bytes(pkt[1:3], 'little') == hci.HCI_LE_CREATE_CIS_COMMAND:
+            last_cis_count = pkt[4] if len(pkt) > 4 else 0
         if d != world.C2H or pkt[0] != 0x04:
             continue
         if pkt[1] == 0x0F and len(pkt) >= 7:  # Command Status
             status, op = pkt[3], int.from_bytes(pkt[5:7], 'little')
             if status == 0 and op in PROCEDURES:
-                pending.append((PROCEDURES[op], op))
+                n = 1
+                if op == hci.HCI_LE_CREATE_CIS_COMMAND:
+                    # one CIS Established per requested CIS (none for an empty request)
+                    n = last_cis_count
+                pending.extend([(PROCEDURES[op], op)] * n)
             continue
         kind = completion_kind(pkt)
         if kind:
@@ -433,9 +453,9 @@ def run(ctx) -> None:
                 run_case(ctx, {'situation': situation, 'extended': True, 'delays': [], 'callers': 1,
                                'program': [[packet, 0], [bytes(hci.HCI_Read_BD_ADDR_Command()), 0]]})
 
-        ctx.hyp(f'alone/{cls.__name__}', one, class_packet(cls), max_examples=ctx.pick(2, 40))
+        ctx.hyp(f'alone/{cls.__name__}', one, class_packet(cls), max_examples=ctx.pick(4, 60))
     ctx.extra['classes_sent_alone'] = n
-    ctx.hyp('programs', lambda c: run_case(ctx, c), program_strategy(), max_examples=ctx.n(500, 40000))
+    ctx.hyp('programs', lambda c: run_case(ctx, c), program_strategy(), max_examples=ctx.n(2500, 320000))
     ctx.floor('concurrent_callers', 20)
     ctx.floor('unregistered_opcode', 20)
     ctx.floor('procedure_command', 20)
